@@ -259,6 +259,56 @@ def make_model_hook(exe, st, node, args):
     return None
 
 
+SKIPF = 'lambda x: (64 - x % 64) % 64'       # SKIP(offset): bytes to the next 64-byte boundary
+SAFEADD = {
+    'params': {'offset': {'len': '1'}, 'nbuffer': {'len': '1'}},
+    'defs': {'SKIPF': SKIPF, 'ADD': 'old(type_size * nr * nc + SKIPF(offset[0]))'},
+    'requires': {'position': 'offset[0] >= 0 and nbuffer[0] >= 0'},
+    'assigns': ['offset[*]', 'nbuffer[*]'],
+    'ensures': {'zero_or_one': 'result == 0 or result == 1',
+                'success_means_no_overflow_and_both_counters_advance_by_the_padded_size':
+                    'implies(result == 1, nr >= 0 and nc >= 0 and nbuffer[0] == old(nbuffer[0]) + ADD and offset[0] == old(offset[0]) + ADD and '
+                    'nbuffer[0] < 2**63 and offset[0] < 2**63)',
+                'failure_only_on_negative_size_or_overflow':
+                    'implies(result == 0, nr < 0 or nc < 0 or nr * nc >= 2**64 or old(nbuffer[0]) + ADD >= 2**63 or old(offset[0]) + ADD >= 2**63 or type_size * nr * nc + 63 >= 2**64)'},
+    'no_error': True,
+}
+
+def pointer_layout_defs():
+    """ghost definitions of the documented buffer layout: O_k = offset after k arrays, S_k = 64-byte aligned start of array k"""
+    defs = [('O_0', '0')]
+    names = list(modeltab.model_pointers())
+    for k, name in enumerate(names):
+        typ, nr, nc = modeltab.model_pointers()[name]
+        defs.append(('S_%d' % k, 'O_%d + (64 - O_%d %% 64) %% 64' % (k, k)))
+        defs.append(('O_%d' % (k + 1), 'S_%d + %d * (%s)' % (k, SIZEOF[typ], modeltab.length_expr(nr, nc))))
+    return defs, names
+
+
+def setptr_contract():
+    defs, names = pointer_layout_defs()
+    n = len(names)
+    ens = {}
+    for k, name in enumerate(names):
+        ens['placed/' + name] = 'same_obj(m.%s, m.buffer) and off(m.%s) == S_%d' % (name, name, k)
+    return {
+        'params': {'m': {'n': 1, 'ptrfields': {'buffer': {'ct': 'unsigned char', 'len': 'm.nbuffer'}}}},
+        'ghost_defs': defs,
+        'requires': {'sizes': nonneg_sizes(), 'mocap_bodies_are_bodies': 'm.nmocap <= m.nbody', 'arrays_fit_int': arrays_fit_int(),
+                     'buffer': 'm.buffer != NULL and u64(m.buffer) % 64 == 0 and m.nbuffer >= 0 and m.nbuffer < 2**62'},
+        # consequences of the definitions, proved in order (each uses the previous one): offsets are non-negative, every
+        # array start is 64-byte aligned and not before the end of the previous array
+        'lemmas': dict(product_lemmas(), **{'layout/%d' % k: 'O_%d >= 0 and S_%d >= O_%d and S_%d %% 64 == 0 and O_%d >= S_%d' % (k, k, k, k, k + 1, k) for k in range(n)}),
+        'assigns': ['m.*'],
+        'error_only_if': 'm.nbuffer != O_%d' % n,
+        'ensures': ens,
+        'cut_after_call': {'SKIP': {'invariant_at': lambda k: ({'at_documented_offset': 'same_obj(ptr, m.buffer) and off(ptr) == O_%d' % (k // 2)} if k % 2 == 0 and k // 2 < n
+                                                                else (None if k // 2 < n else {'no_more_arrays_than_documented': 'false'})),
+                                    'havoc': ['ptr']}},
+        'strict_unsigned': True, 'opaque_products': True, 'keep_byte_offsets': True,
+    }
+
+
 VALIDATE = {
     'params': {'m': None},       # filled in contracts()
     'requires': {},
@@ -327,6 +377,10 @@ def contracts():
     C['__effect_free__'] = ('mj_version', 'mj_deleteModel', 'mju_free')
     C['__blob_memcpy__'] = True
     C['__blob_forget_all__'] = True
+    C['safeAddToBufferSize'] = SAFEADD
+    # mj_setPtrModel: contract written (setptr_contract: every array pointer lands on its documented, 64-byte aligned offset of
+    # the buffer; error exactly when nbuffer differs from the documented total) but its ~6000 obligations - modular arithmetic
+    # over the 486-step layout recurrence - are not discharged within a usable budget, so it is NOT registered as a unit.
     C['numObjects'] = {'inline': True}
     C['__callbacks__'] = ('nsensordata',)
     C['mjp_getPluginAtSlot'] = {'assumed': True, 'requires': {}, 'assigns': [], 'nullable_result': False, 'ensures': {}}
